@@ -32,7 +32,17 @@ var commonAssumptions = []string{
 var ship1Real = []string{"ship.ShipConnection (one endpoint, either role) incl. its timer goroutines", "model", "EEBUS JSON transform"}
 var ship1Stub = []string{"transport below SHIP (stub writer: records frames, can fail the k-th write)", "info provider / hub (stub: trust configuration, records callbacks)", "peer (scripted from literal SHIP 1.0.1 frames: cooperative replies + deviant alphabet)", "user (approve / cancel / close / revoke task)"}
 
+var hubReal = []string{"hub.Hub (2-3 instances)", "ship.ShipConnection", "ws.WebsocketConnection", "gorilla/websocket (Dialer + Upgrader)", "net/http server (ServeTLS, hijack)", "crypto/tls (both sides, SHIP cipher suites, client certificates)", "cert.CreateCertificate / SkiFromCertificate", "mdns.MdnsManager"}
+var hubStub = []string{"TCP (simnet: listeners, dial, latency, reset, half-open)", "mDNS medium (ether provider behind the manager's zeroconf seam: delayed / lost announcements)", "applications (HubReaderInterface recorder)", "user operations (harness tasks)"}
+
 var props = map[string]PropMeta{
+	"C05": {
+		Level: "exploration",
+		Rule: "one run = two real hubs (optionally a third bystander) with generated certificates on the simulated network and mDNS medium: registration before/after Start, start skew 0..30 s, network latency 0..900 ms (optionally asymmetric), mDNS propagation 0..6 s, the dial back-off drawn per attempt (minimum / maximum / any), then 0-4 disturbances from {DisconnectSKI by either side, unsafe close, reset of all connections, half-open link, mDNS outage} at drawn times, then 300 quiet simulated seconds x seeded interleaving of all hub, ship, ws, http and harness tasks; oracle: exactly one transport connection open at both ends, registered on both sides, completed on both sides, a fresh payload crosses in each direction; " +
+			"non-trivial = converged run; distinct = distinct (latency, mDNS delay, registration order, disturbance sequence) tuples",
+		Real: hubReal, Stub: hubStub,
+		QuickS: 40, ThoroughS: 600, QuickWorkers: 8,
+	},
 	"C08": {
 		Level: "exploration",
 		Rule: "three engines per draw: (ship) up to 40 peer events with 50% deviant frames of 12 mutation classes delivered in whatever handshake state the valid prefix reached, both roles, all trust configurations; (ws) up to 12 websocket frames of every opcode and length 0..70000, fragmented, close codes, raw invalid framing, SHIP frames that provoke replies, optionally with a peer that never reads; (mdns) up to 10 resolver callbacks with mutated TXT maps, nil/odd address lists, ports -1..70000, adds and removes; each x seeded schedules; " +
